@@ -46,7 +46,8 @@ def _run_target(args):
         from pyvc.overload import Unsupported as OUnsupported
         tb = traceback.extract_tb(ex.__traceback__)
         in_real_code = bool(tb) and tb[-1].filename.startswith("<") and isinstance(ex, (NameError, AttributeError, TypeError, KeyError, IndexError, ValueError))
-        if isinstance(ex, (Unsupported, OUnsupported, LookupError)) and not isinstance(ex, (KeyError, IndexError)):
+        if isinstance(ex, (Unsupported, OUnsupported, LookupError, NotImplementedError)) and not isinstance(ex, (KeyError, IndexError)):
+            # the code under contract uses a construct the VC generator has no rule for: undecided, not a crash
             sess.unsupported(f"{type(ex).__name__}: {ex}")
         elif in_real_code:
             # the real function, executed on stand-in values, left the modelled subset (new name, new attribute, ...)
@@ -260,8 +261,12 @@ def main(argv=None) -> int:
         seen.add(k["id"])
         print(f"KNOWN-FINDING: property={prop} {k['what']}")
 
-    # exit code
-    if crashes or canary_fail:
+    # exit code.  A violation with a natively replayed witness stands even if another target of the same run crashed;
+    # a vacuity canary that fails makes everything else meaningless.
+    native = [f for f in b_fail_new if f.get("repro") or f.get("what")]
+    if canary_fail:
+        code = 3
+    elif crashes and not native:
         code = 3
     elif nviol:
         code = 1
